@@ -33,11 +33,11 @@ mod verif_e2e {
     use std::io::{Read, Write};
     use tower::Service;
 
-    pub struct Outcome { pub status: u16, pub body: String, pub host_requests: Vec<String>, pub failed_summaries: usize }
+    pub struct Outcome { pub status: u16, pub body: String, pub host_requests: Vec<String>, pub failed_summaries: usize, pub raw_response: String, pub raw: Vec<u8> }
 
     pub struct Scenario {
         pub attributed: bool, pub elevated: bool, pub dest: (std::net::Ipv4Addr, u16), pub rules: Option<(&'static str, &'static str)>, // (mode, defaultAccess) for the destination's endpoint
-        pub key: bool, pub raw_request: String,
+        pub key: bool, pub raw_request: String, pub host_response: Option<Vec<u8>>,
     }
 
     const KEY_JSON: &str = r#"{"authorizationScheme":"Azure-HMAC-SHA256","guid":"9cf81e97-0316-4ad3-94a7-8ccbdee8ddbf","issued":"2021-05-05T12:00:00Z","key":"4A404E635266556A586E3272357538782F413F4428472B4B6250645367566B59"}"#;
@@ -62,6 +62,7 @@ mod verif_e2e {
         let host_port = host_listener.local_addr().unwrap().port();
         let seen = std::sync::Arc::new(std::sync::Mutex::new(Vec::<String>::new()));
         let seen2 = seen.clone();
+        let host_response: Vec<u8> = sc.host_response.clone().unwrap_or_else(|| b"HTTP/1.1 200 OK\\r\\ncontent-length: 0\\r\\n\\r\\n".to_vec());
         std::thread::spawn(move || {
             if let Ok((mut s, _)) = host_listener.accept() {
                 let _ = s.set_read_timeout(Some(std::time::Duration::from_millis(1500)));
@@ -69,7 +70,15 @@ mod verif_e2e {
                 let mut tmp = [0u8; 65536];
                 loop {
                     match s.read(&mut tmp) { Ok(0) => break, Ok(n) => { buf.extend_from_slice(&tmp[..n]);
-                        if buf.windows(4).any(|w| w == b"\\r\\n\\r\\n") { seen2.lock().unwrap().push(String::from_utf8_lossy(&buf).to_string()); let _ = s.write_all(b"HTTP/1.1 200 OK\\r\\ncontent-length: 0\\r\\n\\r\\n"); buf.clear(); } }
+                        // one request = head + content-length bytes of body
+                        while let Some(i) = buf.windows(4).position(|w| w == b"\\r\\n\\r\\n") {
+                            let head = String::from_utf8_lossy(&buf[..i]).to_lowercase();
+                            let cl = head.lines().find_map(|l| l.strip_prefix("content-length:").map(|v| v.trim().parse::<usize>().unwrap_or(0))).unwrap_or(0);
+                            if buf.len() < i + 4 + cl { break; }
+                            seen2.lock().unwrap().push(String::from_utf8_lossy(&buf[..i + 4 + cl]).to_string());
+                            let _ = s.write_all(&host_response);
+                            buf.drain(..i + 4 + cl);
+                        } }
                         Err(_) => break }
                 }
             }
@@ -103,30 +112,60 @@ mod verif_e2e {
             let mut out = Vec::new();
             let mut tmp = [0u8; 65536];
             loop { match c.read(&mut tmp) { Ok(0) => break, Ok(n) => { out.extend_from_slice(&tmp[..n]);
-                    let txt = String::from_utf8_lossy(&out).to_string();
-                    if let Some(i) = txt.find("\\r\\n\\r\\n") { let head = &txt[..i].to_lowercase();
+                    if let Some(i) = out.windows(4).position(|w| w == b"\\r\\n\\r\\n") { let head = &String::from_utf8_lossy(&out[..i]).to_lowercase();
                         let cl = head.lines().find_map(|l| l.strip_prefix("content-length:").map(|v| v.trim().parse::<usize>().unwrap_or(0))).unwrap_or(0);
-                        if txt.len() >= i + 4 + cl { break; } } }
+                        let chunked = head.lines().any(|l| l.starts_with("transfer-encoding:") && l.contains("chunked"));
+                        if chunked { if out.ends_with(b"0\\r\\n\\r\\n") { break; } } else if out.len() >= i + 4 + cl { break; } } }
                 Err(_) => break } }
-            String::from_utf8_lossy(&out).to_string()
+            out
         }).await.unwrap();
+        let raw = resp;
+        let resp = String::from_utf8_lossy(&raw).to_string();
         tokio::time::sleep(std::time::Duration::from_millis(100)).await;
         let status = resp.split_whitespace().nth(1).and_then(|s| s.parse::<u16>().ok()).unwrap_or(0);
         let body = resp.split("\\r\\n\\r\\n").nth(1).unwrap_or("").to_string();
         let failed = agent_status.get_all_failed_connection_summary().await.map(|v| v.iter().map(|s| s.count as usize).sum()).unwrap_or(0);
         let host_requests = seen.lock().unwrap().clone();
         shared_state.get_cancellation_token().cancel();
-        Outcome { status, body, host_requests, failed_summaries: failed }
+        Outcome { status, body, host_requests, failed_summaries: failed, raw_response: resp, raw }
     }
+    pub fn find(h: &[u8], n: &[u8]) -> Option<usize> { h.windows(n.len()).position(|w| w == n) }
+    /// body bytes of a raw HTTP/1.1 response (de-chunked if chunked)
+    pub fn body_bytes(raw: &[u8]) -> Vec<u8> {
+        let i = match find(raw, b"\\r\\n\\r\\n") { Some(i) => i + 4, None => return Vec::new() };
+        let head = String::from_utf8_lossy(&raw[..i]).to_lowercase();
+        let mut rest = &raw[i..];
+        if !head.contains("transfer-encoding: chunked") { return rest.to_vec(); }
+        let mut out = Vec::new();
+        loop {
+            let j = match find(rest, b"\\r\\n") { Some(j) => j, None => break };
+            let n = usize::from_str_radix(String::from_utf8_lossy(&rest[..j]).trim(), 16).unwrap_or(0);
+            if n == 0 { break; }
+            let start = j + 2;
+            if rest.len() < start + n { out.extend_from_slice(&rest[start.min(rest.len())..]); break; }
+            out.extend_from_slice(&rest[start..start + n]);
+            rest = &rest[(start + n + 2).min(rest.len())..];
+        }
+        out
+    }
+    pub fn dechunk(raw: &str) -> String { String::from_utf8_lossy(&body_bytes(raw.as_bytes())).to_string() }
 %(tests)s
 }
 '''
 
 
-def scenario_rs(attributed=True, elevated=True, dest=("168.63.129.16", 80), rules=None, key=False, raw_request="GET /machine?comp=goalstate HTTP/1.1\r\nhost: 127.0.0.1\r\n\r\n"):
-    return 'Scenario { attributed: %s, elevated: %s, dest: ("%s".parse().unwrap(), %d), rules: %s, key: %s, raw_request: %s.to_string() }' % (
+def scenario_rs(attributed=True, elevated=True, dest=("168.63.129.16", 80), rules=None, key=False, raw_request="GET /machine?comp=goalstate HTTP/1.1\r\nhost: 127.0.0.1\r\n\r\n", host_response=None):
+    return 'Scenario { attributed: %s, elevated: %s, dest: ("%s".parse().unwrap(), %d), rules: %s, key: %s, raw_request: %s.to_string(), host_response: %s }' % (
         "true" if attributed else "false", "true" if elevated else "false", dest[0], dest[1],
-        "None" if rules is None else 'Some(("%s", "%s"))' % rules, "true" if key else "false", json.dumps(raw_request))
+        "None" if rules is None else 'Some(("%s", "%s"))' % rules, "true" if key else "false", json.dumps(raw_request, ensure_ascii=False),
+        "None" if host_response is None else "Some(%s.to_vec())" % bytes_lit(host_response))
+
+
+def bytes_lit(b):
+    """Rust byte-string literal of python bytes / str"""
+    if isinstance(b, str):
+        b = b.encode("utf-8")
+    return 'b"' + "".join(chr(c) if (32 <= c < 127 and c not in (34, 92)) else "\\x%02x" % c for c in b) + '"'
 
 
 def test_rs(name, scenario, assertion, message):
@@ -184,6 +223,28 @@ def battery(pid):
               ("e2e_over_limit_content_length_refused", scenario_rs(raw_request="POST /machine?comp=x HTTP/1.1\r\nhost: x\r\ncontent-length: 102401\r\n\r\n" + BIG), "o.status >= 400 && o.status < 500 && o.host_requests.is_empty()", "a declared body over 100 KiB must be refused"),
               ("e2e_over_limit_chunked_not_relayed", scenario_rs(raw_request="POST /machine?comp=x HTTP/1.1\r\nhost: x\r\ntransfer-encoding: chunked\r\n\r\n19001\r\n" + BIG + "\r\n0\r\n\r\n"), "o.status >= 400 && o.status < 500 && o.host_requests.is_empty()", "an undeclared (chunked) body over 100 KiB must be refused and not relayed"),
               ("e2e_exact_limit_is_relayed", scenario_rs(raw_request="POST /machine?comp=x HTTP/1.1\r\nhost: x\r\ncontent-length: 102400\r\n\r\n" + BIG[:102400]), "o.status == 200 && o.host_requests.len() == 1", "a body of exactly 100 KiB is relayed")]
+    if pid == "C14":
+        # bodies with every kind of byte a text harness can carry: ASCII, 2-, 3- and 4-byte UTF-8 sequences (bytes >= 0x80)
+        body = "".join(chr(33 + (i * 7) % 90) for i in range(300)) + "\u00e9\u20ac\U0001f600 end"
+        req = "POST /machine?comp=x&B=2&a=1 HTTP/1.1\r\nhost: x\r\nX-Custom-One: Value One\r\nx-custom-two: two\r\naccept: text/plain\r\nAccept: application/json\r\ncontent-type: application/octet-stream\r\ncontent-length: %d\r\n\r\n%s" % (len(body.encode()), body)
+        chunks = ["h\u00e9llo", ", w\u00f6rld \u20ac", "\U0001f600!!\n"]
+        hresp = "HTTP/1.1 207 Multi-Status\r\nx-host-header: Host Value\r\netag: \"abc\"\r\ntransfer-encoding: chunked\r\n\r\n" + "".join("%x\r\n%s\r\n" % (len(c.encode()), c) for c in chunks) + "0\r\n\r\n"
+        sc = scenario_rs(key=True, raw_request=req, host_response=hresp)
+        # an error response whose frames are not valid UTF-8 on their own (a 2-byte character split across two chunks, plus raw binary) and are longer than 1 KiB
+        bchunks = [b"caf\xc3", b"\xa9! \xff\xfe\x00\x80 " + bytes((i * 37) % 256 for i in range(1500)), b"tail"]
+        bbody = b"".join(bchunks)
+        bresp = b"HTTP/1.1 503 Service Unavailable\r\nx-host-header: Host Value\r\ntransfer-encoding: chunked\r\n\r\n" + b"".join(b"%x\r\n%s\r\n" % (len(c), c) for c in bchunks) + b"0\r\n\r\n"
+        sc5 = scenario_rs(key=True, host_response=bresp)
+        cresp = b"HTTP/1.1 500 Internal Server Error\r\ncontent-length: %d\r\n\r\n%s" % (len(bbody), bbody)
+        sc5c = scenario_rs(key=True, host_response=cresp)
+        T += [("e2e_request_reaches_host_unchanged", sc, 'o.host_requests.len() == 1 && o.host_requests[0].starts_with("POST /machine?comp=x&B=2&a=1 HTTP/1.1\\r\\n") && o.host_requests[0].ends_with(%s) && '
+               'o.host_requests[0].to_lowercase().contains("x-custom-one: value one") && o.host_requests[0].contains("Value One") && o.host_requests[0].to_lowercase().contains("x-custom-two: two") && '
+               'o.host_requests[0].to_lowercase().contains("accept: text/plain") && o.host_requests[0].to_lowercase().contains("accept: application/json") && '
+               'o.host_requests[0].to_lowercase().contains("content-type: application/octet-stream")' % json.dumps("\r\n\r\n" + body, ensure_ascii=False), "method, path+query, client headers (also repeated names) and body bytes must reach the host unchanged"),
+              ("e2e_response_reaches_client_unchanged", sc, 'o.status == 207 && o.raw_response.to_lowercase().contains("x-host-header: host value") && o.raw_response.contains("Host Value") && '
+               'o.raw_response.contains("etag: \\"abc\\"") && dechunk(&o.raw_response) == %s' % json.dumps("".join(chunks), ensure_ascii=False), "status, headers and body bytes must reach the client unchanged"),
+              ("e2e_binary_error_response_reaches_client_unchanged", sc5, 'o.status == 503 && body_bytes(&o.raw) == %s.to_vec()' % bytes_lit(bbody), "a 5xx response with binary, multi-frame, >1 KiB body must reach the client byte for byte"),
+              ("e2e_binary_error_response_with_length_reaches_client_unchanged", sc5c, 'o.status == 500 && body_bytes(&o.raw) == %s.to_vec()' % bytes_lit(bbody), "a 500 response with a content-length binary body must reach the client byte for byte")]
     if pid == "C16":
         T += [("e2e_fresh_agent_not_finished_without_tick", scenario_rs(attributed=False, raw_request="GET /provision HTTP/1.1\r\nhost: x\r\nMetadata: true\r\n\r\n"), 'o.status == 200 && o.body.contains("\\"finished\\":false")', "a fresh agent must not report finished to a query naming no instant"),
               ("e2e_fresh_agent_not_finished_with_garbage_tick", scenario_rs(attributed=False, raw_request="GET /provision HTTP/1.1\r\nhost: x\r\nMetadata: true\r\nx-ms-azure-time_tick: abc\r\n\r\n"), 'o.status == 200 && o.body.contains("\\"finished\\":false")', "unparsable tick")]
